@@ -655,7 +655,7 @@ Definition run_metric (c : case) : bytes :=
   end.
 
 (* kind 5 (whole pipeline, observed at the consumer): sargs = template, n key names, the records' key values;
-   zargs = n, mode (0 live, 1 spill + restart).  Per record: hex tag "/" key set of the delivering pipeline,
+   zargs = n, mode (0 live, 1 spill + restart, 2 = 1 with two outputs of which only the second still holds chunks).  Per record: hex tag "/" key set of the delivering pipeline,
    or "-" when the record is not delivered. *)
 Definition str_err_config : bytes := [101;114;114;58;99;111;110;102;105;103]. (* "err:config" *)
 
@@ -675,7 +675,7 @@ Fixpoint find_dir (name : bytes) (ds : list qdir) : option qdir :=
 Definition run_e2e (c : case) : bytes :=
   match c_zargs c, c_sargs c with
   | [zn; zm], tmpl :: rest =>
-    if negb (in_range zn 1 8 && in_range zm 0 1)%bool then str_badcase else
+    if negb (in_range zn 1 8 && in_range zm 0 2)%bool then str_badcase else
     let n := nat_of_Z zn in
     if Nat.ltb (length rest) n then str_badcase else
     let names := firstn n rest in
@@ -719,6 +719,8 @@ Definition run_e2e (c : case) : bytes :=
                 end
               | _, _ => dash
               end in
+            (* mode 2: two outputs with their own roots; only the second root still holds chunks at the restart,
+               and only its deliveries are reported: same as mode 1 *)
             str_ok ++ colon :: join 59 (map deliver is)
           | _ => str_panic
           end
